@@ -186,11 +186,12 @@ type Fn = (x: number) => string;
 type Shape = { kind: "circle", r: number } | { kind: "square", x: number } | { kind: "triangle", x: number, y: number };
 type KC = { kind: "circle" };
 type MK = Map<MK[], string>;
+type RI = { a: string, next: (RI & { b: number }) | null };
 "#;
 fn leaves() -> Vec<&'static str> {
     vec![
         "string", "number", "boolean", "null", "undefined", "\"a\"", "1", "true", "any", "unknown", "never", "Date", "bigint", "void",
-        "O", "O2", "U", "Tup", "Rec", "RT", "Alias", "G<string>", "D1", "D2", "RS", "RM", "En", "I1", "I2", "GC<U>", "Fn", "object", "symbol", "Shape", "KC", "MK",
+        "O", "O2", "U", "Tup", "Rec", "RT", "Alias", "G<string>", "D1", "D2", "RS", "RM", "En", "I1", "I2", "GC<U>", "Fn", "object", "symbol", "Shape", "KC", "MK", "RI",
     ]
 }
 fn unary(e: &str) -> Vec<String> {
